@@ -383,5 +383,10 @@ def run(ctx):
         ctx.bad("C20.4", f"{QI}.cell_area not strictly decreasing at resolutions {dec}", wa, f"{[(r, areas[r], areas[r + 1]) for r in dec[:3]]}")
     elif len(areas) >= 25:
         ctx.ok("C20.4", f"{QI}.cell_area strictly decreasing over 0..{MAX}", wa, "folded constants; ratios of consecutive counts are >= 4 >> 1 + 2**-52")
+    # C20.7 (round 11): the counts describe what the enumerating functions return NOW -- a list of children that is kept in a memo /
+    # module-level table and handed out by reference has, after a caller edited it, another length than the count functions say
+    from . import purity
+    purity.fresh_result(ctx, "C20.7", f"{QS}.cell_to_children", "the list of children that the count functions describe")
+    purity.fresh_result(ctx, "C20.7", f"{QS}.get_res0_cells", "the list of resolution-0 cells that get_num_cells(0) describes")
     ctx.analysed.update({"pairs_compared": len(lens), "functions": [f"{QI}.get_num_cells", f"{QI}.get_num_children", f"{QI}.cell_area",
                                                                    f"{QS}.cell_to_children", f"{QS}.serialize", f"{QS}.deserialize"]})
